@@ -1,9 +1,163 @@
-(* C02 - property theorems only (grows as the refinement proofs land). *)
-From Coq Require Import String List.
-Require Import PV.Num PV.Sort PV.Spec PV.Impl PV.Config.
+(* C02 - property theorems only.
+   The likelihood term list of the implementation model (Impl.logpdf_terms: one Poisson term per main bin, then the constraint
+   terms walking the parameter sets with ONE running index over the auxiliary data) is the HistFactory template's term list
+   (Ref.ref_terms, addressed by NAMES), for every number instance with ring laws, sound boolean equality and a / b = a * /b,
+   every accepted specification, every parameter vector and EVERY data vector (arbitrary auxiliary data). *)
+From Coq Require Import String Permutation Ring QArith Qcanon List.
+Require Import PV.Num PV.Sort PV.Spec PV.Impl PV.Ref PV.Config PV.RefineRates PV.RefineTop
+               PV.RefineTerms PV.RefineTermsBlocks PV.RefineTermsTop PV.RefineTermsFinal PV.RefineTermsExample.
 Import ListNotations.
+Local Open Scope nat_scope.
 
 (* the constraint terms walk auxdata_order with one running index: the auxiliary data are consumed slice by slice *)
 Theorem C02_par_slices_tile : forall N (sp : spec N) l start ps, reduce_all N sp l start = Ok ps -> tiles N start ps.
 Proof. exact par_slices_tile. Qed.
+
+(* exactly one constraint term per constrained parameter component, in par_order; component i of a constrained set is paired
+   with the auxiliary datum at (total size of the constrained sets before it) + i *)
+Theorem C02_cterms_structure : forall N par aux ps, NoDup (map (p_name N) ps) ->
+  cterms N par ps aux O =
+  flat_map (fun p => tab (p_n N p) (term_of N par aux (aux_offset N ps (p_name N p)) p)) (filter (constrained N) ps).
+Proof. exact cterms_structure. Qed.
+Theorem C02_cterms_length : forall N par aux ps k, length (cterms N par ps aux k) = ctotal N ps.
+Proof. exact cterms_length. Qed.
+(* ... which for accepted specifications is the number of auxiliary data of the configuration (sizes 0 excluded, see the
+   refuted corner below) *)
+Theorem C02_length_cterms_auxdata : forall N, (forall a b : V N, neqb N a b = true -> a = b) ->
+  forall (sp : spec N) md, build N sp = Ok md -> forall par auxd k,
+  (forall p, In p (md_psets N md) -> constrained N p = true -> p_n N p <> O) ->
+  length (cterms N par (md_psets N md) auxd k) = length (md_auxdata N md).
+Proof. exact length_cterms_auxdata. Qed.
+Theorem C02_auxdata_length_refuted : exists md, build QcNum zero_bin_aux_spec = Ok md /\
+  length (cterms QcNum (fun _ => 0%Qc) (md_psets QcNum md) [] O) <> length (md_auxdata QcNum md).
+Proof. exact auxdata_length_refuted. Qed.
+(* the data of the constraint terms are the auxiliary data, in the configuration's order *)
+Theorem C02_auxdata_layout : forall N par aux ps, length aux = ctotal N ps -> map (term_datum N) (cterms N par ps aux O) = aux.
+Proof. exact auxdata_layout. Qed.
+(* expected_auxdata: the means of the Gaussian terms / the rates of the Poisson terms, in the same order *)
+Theorem C02_expected_auxdata_spec : forall N md pars aux,
+  expected_auxdata N md pars = map (term_center N) (cterms N (parf N pars) (md_psets N md) aux O).
+Proof. exact expected_auxdata_spec. Qed.
+
+(* main terms: Poisson(datum of the channel's slice of the data | template rate), channels in sorted order *)
+Theorem C02_main_terms_refine : forall N interp_add interp_mul (sp : spec N) st md par,
+  ring_theory (n0 N) (n1 N) (nadd N) (nmul N) (nsub N) (nopp N) eq ->
+  NoDup (map c_name (channels sp)) ->
+  (forall c, In c (channels sp) -> NoDup (map s_name (c_samples c))) ->
+  (forall c s, In c (channels sp) -> In s (c_samples c) -> NoDup (map mkey (s_mods s))) ->
+  (forall c s m, In c (channels sp) -> In s (c_samples c) -> In m (s_mods s) ->
+     match m_type m with
+     | Histosys => exists lo hi, m_data m = MDHisto lo hi
+     | Normsys => exists lo hi, m_data m = MDNorm lo hi
+     | _ => True end) ->
+  match clip_sample N st with None => True | Some c => nltb N (n0 N) c = false end ->
+  layout_ok N sp md ->
+  forall data, nmaindata N sp <= length data ->
+  main_terms N interp_add interp_mul sp (cfg_channels N sp) (cfg_samples N sp) (cfg_modifiers N sp) st md par (firstn (nmaindata N sp) data) =
+  ref_main_terms N interp_add interp_mul (normsys_code N st) (histosys_code N st) (clip_sample N st) (clip_bin N st) sp
+                 (theta N md par) (obs_of N sp data).
+Proof. exact main_terms_refine. Qed.
+
+(* full log-density = main-only + constraint-only, for any log-density primitives; sums do not depend on the order of the terms *)
+Theorem C02_main_plus_constraint : forall N, ring_theory (n0 N) (n1 N) (nadd N) (nmul N) (nsub N) (nopp N) eq ->
+  forall logpois lognorm interp_add interp_mul sp st md pars data l,
+  logpdf_terms N interp_add interp_mul sp st md pars data = Ok l ->
+  let mainl := main_terms N interp_add interp_mul sp (cfg_channels N sp) (cfg_samples N sp) (cfg_modifiers N sp) st md (parf N pars)
+                          (firstn (nmaindata N sp) data) in
+  let consl := cterms N (parf N pars) (md_psets N md) (skipn (nmaindata N sp) data) O in
+  l = mainl ++ consl /\ sumlog N logpois lognorm l = nadd N (sumlog N logpois lognorm mainl) (sumlog N logpois lognorm consl) /\
+  length pars = md_npars N md /\ length data = nmaindata N sp + length (md_auxdata N md).
+Proof. exact main_plus_constraint. Qed.
+Theorem C02_sumlog_perm : forall N, ring_theory (n0 N) (n1 N) (nadd N) (nmul N) (nsub N) (nopp N) eq ->
+  forall logpois lognorm l l', Permutation l l' -> sumlog N logpois lognorm l = sumlog N logpois lognorm l'.
+Proof. exact sumlog_perm. Qed.
+
+(* user overrides (auxdata, sigmas, factors, ...) reach the parameter set verbatim *)
+Theorem C02_overrides_verbatim : forall N (sp : spec N) name rs start p u,
+  reduce_one N sp name rs start = Ok p -> find_user N sp name = Some u ->
+  (forall l, pc_inits u = Some l -> p_inits N p = Val l) /\
+  (forall l, pc_bounds u = Some l -> p_bounds N p = Val l) /\
+  (forall l, pc_auxdata u = Some l -> p_aux N p = Val l) /\
+  (forall l, pc_factors u = Some l -> p_factors N p = Val l) /\
+  (forall l, pc_sigmas u = Some l -> p_var N p = Val (map (fun s => nmul N s s) l)) /\
+  (forall b, pc_fixed u = Some b -> p_fixed N p = FBool b).
+Proof. exact overrides_verbatim. Qed.
+
+(* the constraint part, for EVERY accepted specification (no further premise than the JSON schema's shape of shapesys /
+   staterror data): the model's constraint terms are a permutation of the template's -- unit Gaussians for normsys/histosys
+   parameters, Gaussian(aux | lumi, configured sigma), Gaussian(aux_k | gamma_k, delta_k) with delta_k the quadrature sum of the
+   relative MC uncertainties of the channel's carrying samples (zero -> 1; user sigmas override), Poisson(aux_b | gamma_b tau_b)
+   with tau_b = (nominal_b/uncertainty_b)^2 (user factors override) -- each paired with the auxiliary datum at the position
+   the configuration assigns to that parameter component; for every parameter vector and every auxiliary data vector *)
+Theorem C02_constraint_terms_refine : forall N,
+  ring_theory (n0 N) (n1 N) (nadd N) (nmul N) (nsub N) (nopp N) eq ->
+  (forall a b : V N, neqb N a b = true -> a = b) -> (forall a b : V N, ndiv N a b = nmul N a (ninv N b)) ->
+  forall (sp : spec N) md, build N sp = Ok md -> list_shape_ok N sp -> forall par auxd,
+  Permutation (cterms N par (md_psets N md) auxd O)
+              (ref_cterms N sp (theta N md par) (aux_by_name N (md_psets N md) auxd)).
+Proof. exact accepted_cterms_perm. Qed.
+
+(* the goal.  _partial: the only premise that is not a schema shape or the documented clip guard is the access-field layout
+   premise of the C01 refinement (layout_okb, evaluated per generated model by the C01/C02 checks; its derivation from
+   build = Ok is RefineLayout.v).  All four constraint families are proved. *)
+Theorem C02_logpdf_terms_refines_partial : forall N,
+  ring_theory (n0 N) (n1 N) (nadd N) (nmul N) (nsub N) (nopp N) eq ->
+  (forall a b : V N, neqb N a b = true -> a = b) -> (forall a b : V N, ndiv N a b = nmul N a (ninv N b)) ->
+  forall interp_add interp_mul (sp : spec N) st md pars data l,
+  build N sp = Ok md -> list_shape_ok N sp -> shape_ok N sp -> clip_guard N st -> layout_okb N sp md = true ->
+  logpdf_terms N interp_add interp_mul sp st md pars data = Ok l ->
+  Permutation l (ref_terms N interp_add interp_mul (normsys_code N st) (histosys_code N st) (clip_sample N st) (clip_bin N st) sp
+                           (theta N md (parf N pars)) (obs_by_name N sp data) (aux_of_data N sp md data)).
+Proof. exact logpdf_terms_refines_partial. Qed.
+(* hence Impl.logpdf = Ref.logpdf for any log-density primitives (what those are is property C04) *)
+Theorem C02_logpdf_refines_partial : forall N,
+  ring_theory (n0 N) (n1 N) (nadd N) (nmul N) (nsub N) (nopp N) eq ->
+  (forall a b : V N, neqb N a b = true -> a = b) -> (forall a b : V N, ndiv N a b = nmul N a (ninv N b)) ->
+  forall interp_add interp_mul (sp : spec N) st md logpois lognorm pars data l,
+  build N sp = Ok md -> list_shape_ok N sp -> shape_ok N sp -> clip_guard N st -> layout_okb N sp md = true ->
+  logpdf_terms N interp_add interp_mul sp st md pars data = Ok l ->
+  sumlog N logpois lognorm l =
+  sumlog N logpois lognorm (ref_terms N interp_add interp_mul (normsys_code N st) (histosys_code N st) (clip_sample N st) (clip_bin N st) sp
+                                      (theta N md (parf N pars)) (obs_by_name N sp data) (aux_of_data N sp md data)).
+Proof. exact logpdf_refines_partial. Qed.
+(* the executed instance (exact rationals) and the analytic instance (reals) satisfy the three number laws *)
+Theorem C02_logpdf_terms_refines_Qc : forall ia im (sp : spec QcNum) st md pars data l,
+  build QcNum sp = Ok md -> list_shape_ok QcNum sp -> shape_ok QcNum sp -> clip_guard QcNum st -> layout_ok QcNum sp md ->
+  logpdf_terms QcNum ia im sp st md pars data = Ok l ->
+  Permutation l (ref_terms QcNum ia im (normsys_code QcNum st) (histosys_code QcNum st) (clip_sample QcNum st) (clip_bin QcNum st) sp
+                           (theta QcNum md (parf QcNum pars)) (obs_by_name QcNum sp data) (aux_of_data QcNum sp md data)).
+Proof. exact logpdf_terms_refines_layout_Qc. Qed.
+Theorem C02_logpdf_terms_refines_R : forall ia im (sp : spec RNum) st md pars data l,
+  build RNum sp = Ok md -> list_shape_ok RNum sp -> shape_ok RNum sp -> clip_guard RNum st -> layout_ok RNum sp md ->
+  logpdf_terms RNum ia im sp st md pars data = Ok l ->
+  Permutation l (ref_terms RNum ia im (normsys_code RNum st) (histosys_code RNum st) (clip_sample RNum st) (clip_bin RNum st) sp
+                           (theta RNum md (parf RNum pars)) (obs_by_name RNum sp data) (aux_of_data RNum sp md data)).
+Proof. exact logpdf_terms_refines_layout_R. Qed.
+
+(* non-vacuity: a concrete two-channel specification with all four constraint families meets every hypothesis *)
+Theorem C02_refines_nonvacuous :
+  exists md l, build QcNum ex_spec = Ok md /\ list_shape_ok QcNum ex_spec /\ shape_ok QcNum ex_spec /\ clip_guard QcNum ex_st /\
+    layout_ok QcNum ex_spec md /\ logpdf_terms QcNum ex_ia ex_im ex_spec ex_st md ex_pars ex_data = Ok l /\
+    length l = 10%nat /\ length (md_auxdata QcNum md) = 7%nat /\ cblocks_okb QcNum ex_spec (md_psets QcNum md) = true /\
+    Permutation l (ref_terms QcNum ex_ia ex_im (normsys_code QcNum ex_st) (histosys_code QcNum ex_st) (clip_sample QcNum ex_st)
+                             (clip_bin QcNum ex_st) ex_spec (theta QcNum md (parf QcNum ex_pars))
+                             (obs_by_name QcNum ex_spec ex_data) (aux_of_data QcNum ex_spec md ex_data)).
+Proof. exact logpdf_terms_refines_nonvacuous. Qed.
+
 Print Assumptions C02_par_slices_tile.
+Print Assumptions C02_cterms_structure.
+Print Assumptions C02_cterms_length.
+Print Assumptions C02_length_cterms_auxdata.
+Print Assumptions C02_auxdata_length_refuted.
+Print Assumptions C02_auxdata_layout.
+Print Assumptions C02_expected_auxdata_spec.
+Print Assumptions C02_main_terms_refine.
+Print Assumptions C02_main_plus_constraint.
+Print Assumptions C02_sumlog_perm.
+Print Assumptions C02_overrides_verbatim.
+Print Assumptions C02_constraint_terms_refine.
+Print Assumptions C02_logpdf_terms_refines_partial.
+Print Assumptions C02_logpdf_refines_partial.
+Print Assumptions C02_logpdf_terms_refines_Qc.
+Print Assumptions C02_logpdf_terms_refines_R.
+Print Assumptions C02_refines_nonvacuous.
